@@ -13,7 +13,9 @@
      6 invalid item accepted by a (nested) container of the copy / invalid scalar accepted
      7 valid mutation of the copy: wrong outcome, or its items handler / observer / declared observer
        did not fire exactly on the copy, or a dependent property is stale
-     8 write-once attribute writable again (or lost)                                                  *)
+     8 write-once attribute writable again (or lost)
+     9 a child object reached through an Instance / List(Instance) trait is shared with the original
+       or differs in state                                                                            *)
 From Coq Require Import ZArith List Bool.
 From TV Require Import Common.Harness C14.Model.
 Import ListNotations.
@@ -22,7 +24,10 @@ Open Scope Z_scope.
 Inductive probe :=
 | PCont (k : Z) (path : list nat) (inv val : outcome) (who_items who_obs who_decl : list Z) (prop_ok : bool)
 | PScalar (k : Z) (inv : outcome)
-| PReadOnly (k : Z) (rewrite : outcome).
+| PReadOnly (k : Z) (rewrite : outcome)
+(* Instance graph of the object (driver-side fixture, not in the Gallina model): the child object(s)
+   reached through an Instance / List(Instance) trait: shared with the original?  equal state? *)
+| PInst (k : Z) (shared : bool) (equal : bool).
 
 Record cobs := {
   co_same_class : bool;
@@ -112,6 +117,7 @@ Definition clause_invalid (ob : cobs) : bool :=
                      | PCont _ _ inv _ _ _ _ _ => out_is inv 1
                      | PScalar _ inv => out_is inv 1
                      | PReadOnly _ _ => true
+                     | PInst _ _ _ => true
                      end) (co_probes ob).
 
 Definition clause_valid (ob : cobs) : bool :=
@@ -137,7 +143,12 @@ Definition clause_readonly (c : cls) (ob : cobs) : bool :=
                      | _ => true
                      end) (co_probes ob).
 
+(* Instance traits carry copy="deep" metadata: the children are copied (not shared) under every
+   operation, with equal state *)
+Definition clause_instances (ob : cobs) : bool :=
+  forallb (fun pr => match pr with PInst _ shared equal => negb shared && equal | _ => true end) (co_probes ob).
+
 Definition law (op : copyop) (c : cls) (ob : cobs) : list Z :=
   chk 1 (co_same_class ob) ++ chk 2 (clause_values c ob) ++ chk 3 (clause_transient c ob)
   ++ chk 4 (clause_unshared op c ob) ++ chk 5 (clause_owner c ob) ++ chk 6 (clause_invalid ob)
-  ++ chk 7 (clause_valid ob) ++ chk 8 (clause_readonly c ob).
+  ++ chk 7 (clause_valid ob) ++ chk 8 (clause_readonly c ob) ++ chk 9 (clause_instances ob).
